@@ -275,20 +275,29 @@ def _names_agrees(st, obs):
     return problems, dict(accepted=exp_acc, files=exp_files, dirs=exp_dirs)
 
 
-def names_key(names, obs, clauses):
-    """Class = the names that were wrongly accepted / rejected (TLC's Valid is the reference through the
-    expected `accepted`); otherwise the failing clauses."""
+_ALONE = {}
+
+
+def _alone(atoms):
+    """What a task with this name does when it is the only one (cached): (accepted, created something)."""
+    key = tuple(atoms)
+    if key not in _ALONE:
+        obs = observe_names([list(atoms)])
+        _ALONE[key] = (bool(obs['accepted']), bool(obs['fs']))
+    return _ALONE[key]
+
+
+def names_key(names, obs, valid, clauses):
+    """Finding class.  valid[j] = TLC's Valid(names[j]).  An invalid name that -- run alone -- is accepted or
+    creates files is the culprit (one class per such name); a valid name that is rejected likewise;
+    otherwise the failing clauses name the class."""
+    culprits = sorted(set(repr(concretise(n)) for n, v in zip(names, valid) if not v and any(_alone(n))))
+    if culprits:
+        return 'C19/name/invalid-name-not-rejected:' + ','.join(culprits)
+    rejected = sorted(set(repr(concretise(n)) for n, v in zip(names, valid) if v and not _alone(n)[0]))
+    if rejected:
+        return 'C19/name/valid-name-rejected:' + ','.join(rejected)
     return 'C19/name/%s' % '+'.join(sorted(set(clauses)))
-
-
-def _names_key_with_expected(names, obs, exp_accepted, clauses):
-    wrong_acc = [repr(concretise(names[i - 1])) for i in obs['accepted'] if i not in exp_accepted]
-    wrong_rej = [repr(concretise(names[i - 1])) for i in exp_accepted if i not in obs['accepted']]
-    if wrong_acc:
-        return 'C19/name/accepted-invalid:' + ','.join(sorted(set(wrong_acc)))
-    if wrong_rej:
-        return 'C19/name/rejected-valid:' + ','.join(sorted(set(wrong_rej)))
-    return names_key(names, obs, clauses)
 
 
 # ---------------------------------------------------------------------------------------------
@@ -417,7 +426,8 @@ def run_c19(ctx):
             n_exec += 1
             problems, exp = _names_agrees(st, obs)
             if problems:
-                ctx.violation(_names_key_with_expected(names, obs, exp['accepted'], problems),
+                valid = [j in exp['accepted'] for j in range(1, len(names) + 1)]
+                ctx.violation(names_key(names, obs, valid, problems),
                               'names %s: observed accepted=%s dirs=%s fs=%s (%s); RunCmd.tla: %s'
                               % ([concretise(n) for n in names], obs['accepted'], obs['dirs'], obs['fs'], obs['excs'], exp),
                               dict(op='names', names=names), module='conf_runcmd')
@@ -432,16 +442,23 @@ def run_c19(ctx):
     res = tlc.run(SPEC, ncfg, coverage=False)
     if not (res.violation and res.violation[0] == 'invariant'):
         raise tlc.MachineryError('RunCmd.tla accepts the empty task name without violating a directory clause: vacuous name model')
-    for wit, consts in (('W_StopsEarly', _consts(3, [0, 1], [1], ['direct'], ['run'], 'NL_None')),
-                        ('W_NoStartLater', _consts(3, [0, 1], [1], ['direct'], ['run'], 'NL_None')),
-                        ('W_DoneAll', _consts(3, [0, 1], [1], ['direct'], ['run'], 'NL_None')),
-                        ('W_SchedFailed', _consts(2, [0, 1], [1], ['sched'], ['run'], 'NL_None')),
-                        ('W_Rejected', _consts(0, [0], [0], ['direct'], ['names'], 'NL_Triples')),
-                        ('W_NestedName', _consts(0, [0], [0], ['direct'], ['names'], 'NL_Triples'))):
+    wits = (('W_StopsEarly', _consts(3, [0, 1], [1], ['direct'], ['run'], 'NL_None')),
+            ('W_NoStartLater', _consts(3, [0, 1], [1], ['direct'], ['run'], 'NL_None')),
+            ('W_DoneAll', _consts(3, [0, 1], [1], ['direct'], ['run'], 'NL_None')),
+            ('W_SchedFailed', _consts(2, [0, 1], [1], ['sched'], ['run'], 'NL_None')),
+            ('W_Rejected', _consts(0, [0], [0], ['direct'], ['names'], 'NL_Triples')),
+            ('W_NestedName', _consts(0, [0], [0], ['direct'], ['names'], 'NL_Triples')))
+
+    def _witness(arg):
+        wit, consts = arg
         wcfg = tlc.write_cfg(os.path.join(wd, wit + '.cfg'), constants=consts, invariants=[wit], deadlock=False)
         wres = tlc.run(SPEC, wcfg, coverage=False, workers=2)
         if wres.violation != ('invariant', wit):
             raise tlc.MachineryError('witness %s not reachable in RunCmd.tla' % wit)
+
+    from concurrent.futures import ThreadPoolExecutor
+    with ThreadPoolExecutor(max_workers=6) as tp:
+        list(tp.map(_witness, wits))
     ctx.count(evaluations=n_exec, traces=n_exec)
 
     # ---- code -> spec
@@ -473,27 +490,20 @@ def run_c19(ctx):
     dbg('random cases executed')
     records = [(cid, case, obs) for cid, (case, obs) in enumerate(zip(cases, observations), 1)]
     verdict = tlc_verdict(records, wd, ctx, 'RunCmdTrace/random')
+    # Valid(name) as TLC sees it, for the names of the failing lists: a single-name case observed as "rejected"
+    # fails the clause Rejected exactly when the name is valid
+    suspects = sorted(set(tuple(n) for cid in verdict for n in records[cid - 1][1].get('names', [])))
+    valid_of = {}
+    if suspects:
+        probe = [(j, dict(op='names', names=[list(n)]), dict(accepted=[], dirs=[[]], fs=[])) for j, n in enumerate(suspects, 1)]
+        pv = tlc_verdict(probe, wd, None, 'RunCmdTrace/validity')
+        valid_of = {n: 'Rejected' in pv.get(j, []) for j, n in enumerate(suspects, 1)}
     for cid, clauses in sorted(verdict.items()):
         _cid, case, obs = records[cid - 1]
         if case['op'] == 'run':
             ctx.violation(run_key(case, clauses), 'clauses %s false on the observation %s' % (sorted(clauses), obs), case, module='conf_runcmd')
         else:
-            key = names_key(case['names'], obs, clauses)
-            if 'Rejected' in clauses:
-                # name the class by the offending names: the expected set is what TLC computed (Valid); recover it
-                # from the single-name verdicts below when the list has more than one name
-                single = {}
-                for j, nm in enumerate(case['names'], 1):
-                    o1 = dict(accepted=[1] if j in obs['accepted'] else [], dirs=[obs['dirs'][j - 1]] if j in obs['accepted'] else [[]], fs=[])
-                    single[j] = (dict(op='names', names=[nm]), o1)
-                sv = tlc_verdict([(j, c1, o1) for j, (c1, o1) in single.items()], wd, None, 'RunCmdTrace/names-single')
-                wrong = [j for j in single if 'Rejected' in sv.get(j, [])]
-                acc = [repr(concretise(case['names'][j - 1])) for j in wrong if j in obs['accepted']]
-                rej = [repr(concretise(case['names'][j - 1])) for j in wrong if j not in obs['accepted']]
-                if acc:
-                    key = 'C19/name/accepted-invalid:' + ','.join(sorted(set(acc)))
-                elif rej:
-                    key = 'C19/name/rejected-valid:' + ','.join(sorted(set(rej)))
+            key = names_key(case['names'], obs, [valid_of[tuple(n)] for n in case['names']], clauses)
             ctx.violation(key, 'names %s: clauses %s false on accepted=%s dirs=%s fs=%s (%s)'
                           % ([concretise(n) for n in case['names']], sorted(clauses), obs['accepted'], obs['dirs'], obs['fs'], obs['excs']),
                           case, module='conf_runcmd')
